@@ -2,9 +2,11 @@ CONSTANTS
   Entries <- MCEntries
   MaxEnt = 2
   CidDom <- MCCidDom
+  Dev <- NoDev
 INIT Init
 NEXT Next
 INVARIANT ToUnicodeRef
 INVARIANT IncrementAgrees
 INVARIANT EvenTargets
+INVARIANT DevLocal
 CHECK_DEADLOCK FALSE
